@@ -156,6 +156,136 @@ def rule_buffer_allowance(col, facts):
 
 
 # ---------------------------------------------------------------------------------------------
+def exponent_allowances(f):
+    """For buffer_size_const: the bytes it adds for the exponent part when exponent notation is possible,
+    as (lower bound of the allowance, description) per path.  `count += K` gives K; `count += exp` on a path
+    that established `exp < T == false` gives T."""
+    from rules.core import enum_paths
+    counter = None
+    for l, ds in f.defs().items():
+        inits = [1 for bb, j, rv, pr in ds if rv[0] == "use" and rv[1][0] == "k" and rv[1][1].get("ty") == "usize" and rv[1][1].get("v") == 2]
+        if inits and len(ds) >= 4:
+            counter = l
+    if counter is None:
+        raise AnchorMissing("buffer_size_const: no counter initialised with 2 found")
+    tg = {}
+    for bb, j, rv, pr in f.defs()[counter]:
+        if rv[0] == "call":
+            continue
+        e = rvalue_expr(f, rv, 0)
+        if e[0] == "bin" and e[1] == "Add":
+            tg[bb] = e
+    out = []
+    for t, atoms in enum_paths(f, 0, set(tg)):
+        notation = [p for e, p in atoms if strip_casts(e)[0] == "call" and last_seg(strip_casts(e)[1]) == "no_exponent_notation"]
+        if notation != [False]:
+            continue                      # the no-notation arms add the full positional range instead
+        add = strip_casts(tg[t][3])
+        # drop paths whose constant comparisons on one variable contradict each other (x >= 13 and x < 5)
+        lo_hi = {}
+        for e, p in atoms:
+            e = strip_casts(e)
+            if e[0] == "bin" and e[1] in ("Lt", "Ge") and strip_casts(e[3])[0] == "k" and isinstance(strip_casts(e[3])[1], int) and isinstance(p, bool):
+                v, k = strip_casts(e[2]), strip_casts(e[3])[1]
+                lt = (e[1] == "Lt") == p
+                lo, hi = lo_hi.get(v, (None, None))
+                if lt:
+                    hi = k - 1 if hi is None else min(hi, k - 1)
+                else:
+                    lo = k if lo is None else max(lo, k)
+                lo_hi[v] = (lo, hi)
+        if any(lo is not None and hi is not None and lo > hi for lo, hi in lo_hi.values()):
+            continue
+        if add[0] == "k" and isinstance(add[1], int):
+            out.append((add[1], "count += %d" % add[1]))
+            continue
+        # variable allowance: lower bound from `add < T` found false on this path
+        lb = 0
+        for e, p in atoms:
+            e = strip_casts(e)
+            if e[0] == "bin" and e[1] == "Lt" and strip_casts(e[2]) == add and strip_casts(e[3])[0] == "k" and p is False:
+                lb = max(lb, strip_casts(e[3])[1])
+            if e[0] == "bin" and e[1] == "Ge" and strip_casts(e[2]) == add and strip_casts(e[3])[0] == "k" and p is True:
+                lb = max(lb, strip_casts(e[3])[1])
+        out.append((lb, "count += %s with %s >= %d" % (show(add), show(add), lb)))
+    # the first self-increment region only (exponent part): stop at the first block common to all paths
+    return out
+
+
+def rule_exponent_allowance(col, facts):
+    """TBL-size (exponent allowance): in exponent notation the writer stores the exponent character and
+    sign and then hands `&mut bytes[cursor..]` to the u32 integer writer.  The decimal (jeaiii) writer
+    re-slices that to `[..10]` first, so the bound must leave 1 + 1 + 10 bytes after the digits or a
+    buffer of exactly buffer_size_const bytes panics; the generic-radix and compact writers only need the
+    digits themselves (<= 11 for a binary exponent of a double)."""
+    R = "TBL-size"
+    f = facts.fn(WF + "options::Options::buffer_size_const")
+    al = exponent_allowances(f)
+    # only the increments of the exponent part: the significant-digit increment has no constant / bound
+    exps = [(v, d) for v, d in al if not d.endswith(">= 0")]
+    col.check(R, "buffer_size_const:exponent-paths", len(exps) >= 2, "could not read the exponent allowance of buffer_size_const (%s)" % al, f.loc())
+    if not exps:
+        return
+    lo = min(v for v, _ in exps)
+    if facts.config.startswith("compact"):
+        p2 = "power-of-two" in facts.config or "radix" in facts.config
+        need, why = (2 + 11, "exponent character, sign and up to 11 binary exponent digits") if p2 else (2 + 3, "exponent character, sign and up to 3 decimal exponent digits")
+    else:
+        from rules.tbl_write_integer import reslice_consts
+        j = facts.fn("lexical_write_integer::jeaiii::from_u32")
+        ks = reslice_consts(j)
+        col.check(R, "from_u32:reslice", len(ks) == 1, "from_u32 re-slices with %s" % ks, j.loc())
+        if len(ks) != 1:
+            return
+        need, why = 2 + ks[0], "exponent character, sign, and the %d-byte window jeaiii::from_u32 re-slices from the rest of the buffer" % ks[0]
+    col.check(R, "buffer_size_const:exponent-allowance", lo >= need,
+              "the smallest exponent allowance is %d (%s) but exponent notation needs %d bytes after the digits (%s): with min_significant_digits large enough to exceed FORMATTED_SIZE the documented bound panics" % (lo, [d for v, d in exps if v == lo][0], need, why), f.loc())
+
+
+# ---------------------------------------------------------------------------------------------
+def rule_debug_buffer_belief(col, facts):
+    """BLF-buffer: a `debug_assert!(bytes.len() >= K)` inside a float-writer back-end states a belief about
+    the caller.  WriteFloat::write_float guarantees len >= buffer_size_const >= FORMATTED_SIZE and may
+    already have consumed one byte for the sign, so K must not exceed FORMATTED_SIZE - 1: otherwise every
+    negative float written into a buffer of exactly the documented size panics in debug builds."""
+    from rules.core import fold
+    R = "BLF-buffer"
+    if not ("power-of-two" in facts.config or "radix" in facts.config):
+        return
+    sizes = [facts.const_value("<%s as lexical_util::constants::FormattedSize>::FORMATTED_SIZE" % t) for t in ("f32", "f64")]
+    guaranteed = min(sizes) - 1
+    n = 0
+    for f in facts.all_fns():
+        if f.crate != "lexical_write_float" or f.kind == "Closure":
+            continue
+        for i, b in enumerate(f.blocks):
+            if f.live(i):
+                continue                     # only the bodies of debug_assert!s are analysed as dead
+            for st in b["s"]:
+                if st[0] != "=" or st[2][0] != "bin" or st[2][1] not in ("Ge", "Gt", "Le", "Lt"):
+                    continue
+                opn, x, y = st[2][1], st[2][2], st[2][3]
+                ex, ey = strip_casts(op_expr(f, x)), strip_casts(op_expr(f, y))
+                def is_len(e):
+                    s_ = show(e)
+                    return (e[0] == "call" and last_seg(e[1]) == "len") or "PtrMetadata" in s_
+                if is_len(ex) and opn in ("Ge", "Gt"):
+                    k = fold(f, y)
+                    k = k if opn == "Ge" else (None if k is None else k + 1)
+                elif is_len(ey) and opn in ("Le", "Lt"):
+                    k = fold(f, x)
+                    k = k if opn == "Le" else (None if k is None else k + 1)
+                else:
+                    continue
+                if k is None:
+                    continue
+                n += 1
+                col.check(R, "%s:len>=%s" % (f.short.replace(WF, ""), "K"), k <= guaranteed,
+                          "debug_assert!(bytes.len() >= %d) but the entry point only guarantees %d bytes here (FORMATTED_SIZE %d minus the sign byte it may already have written): negative floats panic in debug builds with a buffer of the documented size" % (k, guaranteed, min(sizes)), f.loc(st[3]))
+    col.floor(R, "debug-only buffer length beliefs in the float writers", n, 3)
+
+
+# ---------------------------------------------------------------------------------------------
 def rule_bigfloat_bits(col, facts):
     """TBL-limits (Bigfloat): byte_comp scales b+h by radix^|sci_exp| up to 2^1075 and multiplies by a
     64-bit significand: EXPONENT_BIAS + 64 bits at least."""
